@@ -369,7 +369,13 @@ class TensorEval:
             return self.call(f, e, env)
         raise Unknown(f'expression {t[:50]}')
 
+    call_hook = None          # optional: (call node, Func, env, evaluator) -> value or NotImplemented
+
     def call(self, f, e, env):
+        if self.call_hook is not None:
+            r_ = self.call_hook(e, f, env, self)
+            if r_ is not NotImplemented:
+                return r_
         fn = e.func
         name = norm(fn).split('.')[-1]
         kw = {k.arg: self.ev(f, k.value, env) for k in e.keywords if k.arg and k.arg != 'dtype'}
@@ -405,9 +411,10 @@ class TensorEval:
             return range(*[int(a) for a in args])
         if isinstance(fn, ast.Name) and fn.id == 'len' and len(args) == 1:
             return len(args[0])
-        if isinstance(fn, ast.Name) and fn.id == 'enumerate' and len(args) == 1 and isinstance(args[0], (range, list, tuple)):
+        seqs = (range, list, tuple) + ((np.ndarray,) if np is not None else ())        # an array iterates over its first axis
+        if isinstance(fn, ast.Name) and fn.id == 'enumerate' and len(args) == 1 and isinstance(args[0], seqs) and not (isinstance(args[0], np.ndarray) and args[0].ndim == 0):
             return [(i, x) for i, x in enumerate(args[0])]
-        if isinstance(fn, ast.Name) and fn.id == 'zip' and all(isinstance(a, (range, list, tuple)) for a in args):
+        if isinstance(fn, ast.Name) and fn.id == 'zip' and all(isinstance(a, seqs) and not (isinstance(a, np.ndarray) and a.ndim == 0) for a in args):
             return [tuple(t) for t in zip(*args)]
         if name == 'sqrt' and len(args) == 1:
             a = args[0]
